@@ -10,6 +10,7 @@
    protocol, goroutines left behind.  Property theorems only; every proof is `exact <lemma>`. *)
 From Coq Require Import List String Arith Bool.
 From Gluon Require Import Gen.FactsLocks Model.LockOrder Model.Teardown Proofs.ConcProofs.
+From Gluon Require Import Gen.FactsServe Model.ServerStop Proofs.ServerStopProofs.
 Import ListNotations.
 
 (* Generic, for all numbers of threads and all lock sets: if whatever a thread waits for ranks strictly above everything
@@ -79,6 +80,47 @@ Theorem C19_closed_on_return : forall n s, reachable n s -> final s = true -> db
 Proof. exact closed_on_return_lemma. Qed.
 Print Assumptions C19_closed_on_return.
 
+(* ---- Server.Close and sessions with and without a state (Model/ServerStop.v) ----
+   `close_closes_accepted_conns` is the conjunction of facts extracted from server.go / session.go on every run
+   (Gen/FactsServe.v): serve defers conn.Close() in its accept loop, returns on serveDoneCh, Close stops serving before it
+   closes the backend, Session.serve ends with its command reader.  The model's step function takes it as a parameter. *)
+
+(* what Close does today closes the accepted connections *)
+Theorem C19_close_closes_accepted_conns : close_closes_accepted_conns = true.
+Proof. exact fact_close_closes_conns. Qed.
+Print Assumptions C19_close_closes_accepted_conns.
+
+(* every kind of session — not authenticated, in the middle of its LOGIN literal, authenticated, selected, idling —
+   has a stop signal raised by Close itself: once serve has returned, any session still alive can leave its loop,
+   whatever its client does *)
+Theorem C19_every_session_has_stop_signal : forall ks s i x,
+  sreachable close_closes_accepted_conns ks s -> 2 <= pidx (phase s) ->
+  nth_error (sessions s) i = Some x -> serving x = true ->
+  exists s', sstep close_closes_accepted_conns s (SEnd i) = Some s'.
+Proof. exact stop_signal_src. Qed.
+Print Assumptions C19_every_session_has_stop_signal.
+
+(* Close never gets stuck, with steps of the server alone (no client has to act) *)
+Theorem C19_server_close_progress : forall ks s,
+  sreachable close_closes_accepted_conns ks s -> returned s = false ->
+  exists l s', server_side l = true /\ sstep close_closes_accepted_conns s l = Some s'.
+Proof. exact server_close_progress_src. Qed.
+Print Assumptions C19_server_close_progress.
+
+(* once Close has returned and the server has nothing left to do, no session (goroutine) is left, for any mix of
+   sessions and without help from the clients *)
+Theorem C19_no_session_left_after_close : forall ks s,
+  sreachable close_closes_accepted_conns ks s -> returned s = true ->
+  quiescent close_closes_accepted_conns s -> none_left s = true.
+Proof. exact none_left_src. Qed.
+Print Assumptions C19_no_session_left_after_close.
+
+(* and the closing of the connections is necessary for that: without it a session that never logged in survives Close *)
+Theorem C19_without_conn_close_refuted :
+  exists s, sreachable false [Stateless; Stateful] s /\ returned s = true /\ quiescent false s /\ none_left s = false.
+Proof. exact conn_close_needed_lemma. Qed.
+Print Assumptions C19_without_conn_close_refuted.
+
 (* non-vacuity: three sessions; one logs out, the closer runs while the others are active, everything ends *)
 Example C19_example_run :
   exists s, run (init 3)
@@ -91,3 +133,11 @@ Proof. eexists. vm_compute. repeat split. Qed.
 Example C19_example_cycle_refused :
   forallb edge_ok (("Cond.L", "Client.lock", "hypothetical") :: lock_edges) = false.
 Proof. vm_compute. reflexivity. Qed.
+
+(* non-vacuity for the server-level model: one session per protocol state the property names (not authenticated,
+   mid-literal: Stateless; authenticated, selected, idling: Stateful), no client ever acts, Close returns, nobody left *)
+Example C19_example_server_close :
+  exists s, srun close_closes_accepted_conns (sinit [Stateless; Stateless; Stateful; Stateful; Stateful])
+              [SCloser; SCloser; SEnd 0; SCloser; SEnd 3; SEnd 2; SEnd 4; SCloser; SEnd 1] = Some s
+  /\ returned s = true /\ none_left s = true.
+Proof. eexists. vm_compute. repeat split. Qed.
